@@ -7,3 +7,4 @@ from . import providers  # noqa: F401
 from . import structural  # noqa: F401
 from . import rule_analysis  # noqa: F401
 from . import file_discovery  # noqa: F401
+from . import configuration  # noqa: F401
